@@ -48,6 +48,8 @@ type PropSpec struct {
 	Reach       []string            `json:"reach_required"`
 	Solvers     []string            `json:"solvers"`
 	Native      bool                `json:"native_replay"`
+	Race        bool                `json:"race_monitor"`
+	OnlyKinds   []string            `json:"only_kinds"`
 }
 
 type Limits struct {
@@ -201,6 +203,7 @@ func cmdRun(args []string) int {
 	pkgsFlag := fs.String("packages", "", "comma separated package patterns")
 	workers := fs.Int("workers", runtime.NumCPU(), "workers")
 	maxPaths := fs.Int("max-paths", 0, "path limit")
+	raceFlag := fs.Bool("race", false, "switch the happens-before race monitor on")
 	budget := fs.Int("budget", 0, "time budget in seconds (overrides the property spec)")
 	verbose := fs.Bool("v", false, "verbose")
 	noEvidence := fs.Bool("no-evidence", false, "do not write evidence")
@@ -255,6 +258,7 @@ func cmdRun(args []string) int {
 	if *tier == "thorough" {
 		cfg.TierN = 1
 	}
+	cfg.Race = spec.Race || *raceFlag
 	if *maxPaths > 0 {
 		cfg.MaxPaths = *maxPaths
 	}
@@ -322,9 +326,21 @@ func cmdRun(args []string) int {
 	}
 	sort.Slice(viols, func(i, j int) bool { return viols[i].Harness+viols[i].ID < viols[j].Harness+viols[j].ID })
 	exit := 0
-	nViol, nKnown, nUnconfirmed := 0, 0, 0
+	nViol, nKnown, nUnconfirmed, nOtherKinds := 0, 0, 0, 0
 	os.MkdirAll(filepath.Join(*verif, "replays"), 0o755)
 	for i, v := range viols {
+		if len(spec.OnlyKinds) > 0 {
+			keep := false
+			for _, k := range spec.OnlyKinds {
+				if k == v.Kind {
+					keep = true
+				}
+			}
+			if !keep {
+				nOtherKinds++
+				continue // belongs to another property's check
+			}
+		}
 		if v.Key == "" {
 			v.Key = shortHarness(v.Harness) + ":" + v.Kind + ":" + v.ID
 			if v.Kind == "panic" || v.Kind == "deadlock" {
@@ -444,6 +460,7 @@ func cmdRun(args []string) int {
 		"outside_claim":        spec.Outside,
 		"reach_labels":         ex.reach,
 		"known_findings_seen":  nKnown,
+		"violations_of_other_kinds_ignored": nOtherKinds,
 		"unconfirmed_counterexamples": nUnconfirmed,
 		"violation_keys":       violKeys(viols),
 		"trusted_base":         []string{"go/types + go/ssa of golang.org/x/tools v0.29.0", "gosym (this engine)", "cvc5 1.0.3 / z3 4.8.12", "environment stubs listed under stubs"},
@@ -571,7 +588,7 @@ func cmdReplay(args []string) int {
 		fmt.Println(err)
 		return 2
 	}
-	ex := NewExplorer(p, Config{Workers: 1, SolverMs: 1000, MaxSteps: 50_000_000, Solvers: []string{"cvc5", "z3"}})
+	ex := NewExplorer(p, Config{Workers: 1, SolverMs: 1000, MaxSteps: 50_000_000, Solvers: []string{"cvc5", "z3"}, Race: os.Getenv("GOSYM_RACE") != ""})
 	if ex.concreteReplay(doc.Violation) {
 		fmt.Printf("REPRODUCED property=%s key=%s: %s\n", doc.Property, doc.Violation.Key, doc.Violation.Msg)
 		return 1
